@@ -67,6 +67,8 @@ def gen_step(rnd, names, kinds):
             p['graceful_timeout'] = rnd.choice([0, .2, 3.0])
         if rnd.random() < .3:
             p['signum'] = rnd.choice([15, 'int', 'SIGUSR1', 9])
+        if rnd.random() < .4:
+            p['waiting'] = True
         return ['req', 'kill', p]
     if k == 'signal':
         return ['req', 'signal', {'name': name, 'signum': rnd.choice([15, 1, 10, 'usr2', 9])}]
